@@ -172,29 +172,31 @@ def run_suite(pid, suite, tier, seed, fuzzing=False):
     if fuzzing:
         os.replace(impl, f"{wd}/{tag}.impl"); impl = f"{wd}/{tag}.impl"
         model = f"{wd}/{tag}.model"
-    rc, out, _ = sh([DRIVER, cases, model] + (["fuzzing"] if fuzzing else []), timeout=7200)
+    rc, out, _ = sh([DRIVER, cases, model, model + ".spec"] + (["fuzzing"] if fuzzing else []), timeout=7200)
     if rc != 0:
         raise RuntimeError(f"driver failed on suite {suite}: {out[-2000:]}")
     return cases, impl, model
 
 
 def compare(cases, impl, model, limit=50):
-    """Line-by-line comparison; returns (n, mismatches[list of (lineno, case, impl, model)], stats)."""
+    """Line-by-line comparison of the implementation with the specification observation (model.spec)
+    and with the model of the code; returns (n, nmis, mismatches[(lineno, case, impl, model, spec)], stats).
+    A line is a mismatch when the implementation differs from the specification or from the model."""
     n = 0
     mism = []
     nmis = 0
     kinds = {}
     distinct = set()
     panics = 0
-    with open(cases) as fc, open(impl) as fi, open(model) as fm:
-        for c, i, m in zip(fc, fi, fm):
+    with open(cases) as fc, open(impl) as fi, open(model) as fm, open(model + ".spec") as fs:
+        for c, i, m, s in zip(fc, fi, fm, fs):
             n += 1
             k = c.split(" ", 1)[0]
             kinds[k] = kinds.get(k, 0) + 1
-            if i != m:
+            if i != s or i != m:
                 nmis += 1
-                if len(mism) < limit:
-                    mism.append((n, c.rstrip("\n"), i.rstrip("\n"), m.rstrip("\n")))
+                if len(mism) < limit or (i != m and len(mism) < 4 * limit):
+                    mism.append((n, c.rstrip("\n"), i.rstrip("\n"), m.rstrip("\n"), s.rstrip("\n")))
             if i.startswith("PANIC"):
                 panics += 1
             distinct.add(hashlib.blake2b(c.encode(), digest_size=8).digest())
@@ -216,10 +218,10 @@ def exec_model(case_lines, wd, fuzzing=False):
     os.makedirs(wd, exist_ok=True)
     cf, of = f"{wd}/replay.cases", f"{wd}/replay.model"
     open(cf, "w").write("\n".join(case_lines) + "\n")
-    rc, out, _ = sh([DRIVER, cf, of] + (["fuzzing"] if fuzzing else []))
+    rc, out, _ = sh([DRIVER, cf, of, of + ".spec"] + (["fuzzing"] if fuzzing else []))
     if rc != 0:
         raise RuntimeError("driver failed: " + out[-1000:])
-    return [l.rstrip("\n") for l in open(of)]
+    return [l.rstrip("\n") for l in open(of)], [l.rstrip("\n") for l in open(of + ".spec")]
 
 
 # ------------------------------------------------------------------ in-Coq re-evaluation of a sample
